@@ -45,6 +45,9 @@ TARGETS = [
     ({'type': 'integer', 'constraints': {'required': True}}, ['1', '', None, 'x']),
     ({'type': 'datetime'}, ['2020-01-31T10:00:00Z', '2020-01-31 10:00', 'x', '']),
     ({'type': 'array'}, ['[1,2]', '{"a":1}', 'x', [1], '']),
+    # options without a type: only constraints are added to the (any-typed) field
+    ({'constraints': {'enum': ['a', 'abc', 1]}}, ['a', 'ab', 'abc', 1, 2, '', None]),
+    ({'constraints': {'required': True}}, ['a', '', None, 5]),
 ]
 POLICIES = ['raise', 'drop', 'ignore', 'clear', 'custom4', 'custom5', 'custom5d', 'default']
 
@@ -101,7 +104,7 @@ def validate_case(draw):
     has_other = draw(st.booleans())
     sel = draw(st.sampled_from(['res1', ['res1'], 1 if has_other else 0, -1] + ([] if has_other else [None])))
     c = {'proc': 'validate', 'kind': kind, 'names': names, 'rows': rows,
-         'declared': [copy.deepcopy(TARGETS[t][0]) for t in targets],
+         'declared': [dict({'type': 'any'}, **copy.deepcopy(TARGETS[t][0])) for t in targets],
          'policy': draw(st.sampled_from(POLICIES)), 'decisions': draw(st.lists(st.booleans(), min_size=1, max_size=6)),
          'has_other': has_other, 'sel': sel}
     if kind != 'schema':
@@ -362,7 +365,7 @@ def check(case, ctx):
     if case['proc'] == 'set_type':
         got_types = dict(schema_sig(out_desc, ri))
         for n in names:
-            want = case['options']['type'] if n in matched else 'any'
+            want = case['options'].get('type', 'any') if n in matched else 'any'
             if got_types.get(n) != want:
                 raise Violation('set_type:schema-type', {'field': n, 'got': got_types.get(n), 'expected': want})
     # non-triviality: position / multiplicity of invalid cells
